@@ -608,39 +608,44 @@ func init() {
 				}
 				r.ok(key, fnName(fn), c.pos(at.Pos()), "read ends at "+exprSig(end, 0))
 			}
-			for _, b := range fn.Blocks {
-				for _, ins := range b.Instrs {
-					call, ok := ins.(*ssa.Call)
-					if !ok {
-						continue
-					}
-					if isDataRead(&call.Call) {
-						check(call, call.Call.Args[1], call.Call.Args[2])
-						continue
-					}
-					// a read helper (reads [its parameter, its parameter)): the
-					// window is the one the call site passes
-					sc := call.Call.StaticCallee()
-					if sc == nil || !c.inRoot(sc) || sc.Blocks == nil {
-						continue
-					}
-					for _, hb := range sc.Blocks {
-						for _, hi := range hb.Instrs {
-							hc, ok := hi.(*ssa.Call)
-							if !ok || !isDataRead(&hc.Call) {
-								continue
-							}
-							ps, okS := stripConv(hc.Call.Args[1]).(*ssa.Parameter)
-							pe, okE := stripConv(hc.Call.Args[2]).(*ssa.Parameter)
-							if okS && okE {
-								check(call, argFor(&call.Call, ps), argFor(&call.Call, pe))
+			// every read of loadFields and of the helpers it is split into (two levels);
+			// a helper that reads [its parameter, its parameter) is judged by the window
+			// each call site passes
+			var visit func(f *ssa.Function, depth int)
+			seenFn := map[*ssa.Function]bool{}
+			visit = func(f *ssa.Function, depth int) {
+				if seenFn[f] || depth > 2 {
+					return
+				}
+				seenFn[f] = true
+				for _, b := range f.Blocks {
+					for _, ins := range b.Instrs {
+						call, ok := ins.(*ssa.Call)
+						if !ok {
+							continue
+						}
+						if isDataRead(&call.Call) {
+							ps, okS := stripConv(call.Call.Args[1]).(*ssa.Parameter)
+							pe, okE := stripConv(call.Call.Args[2]).(*ssa.Parameter)
+							if okS && okE && f != fn {
+								for _, site := range c.callsTo(f) {
+									if sc, ok := site.(*ssa.Call); ok {
+										check(sc, argFor(site.Common(), ps), argFor(site.Common(), pe))
+									}
+								}
 							} else {
-								check(hc, hc.Call.Args[1], hc.Call.Args[2])
+								check(call, call.Call.Args[1], call.Call.Args[2])
 							}
+							continue
+						}
+						sc := call.Call.StaticCallee()
+						if sc != nil && c.inRoot(sc) && sc.Blocks != nil {
+							visit(sc, depth+1)
 						}
 					}
 				}
 			}
+			visit(fn, 0)
 		},
 	})
 
